@@ -157,6 +157,11 @@ func TestVerifC01ServerNames(t *testing.T) {
 			ctxKind := "live"
 			if stream {
 				ctxKind = "none"
+			} else if (choice>>12)%8 == 0 { // a context that is already done: the call touches nothing
+				ctxKind = "done"
+				c2, cancel := context.WithCancel(ctx)
+				cancel()
+				ctx = c2
 			}
 			emit(verifEv{"e": "callStart", "c": id, "api": "doAcc", "ctx": ctxKind, "acc": []string{"ok", "accErr"}})
 			body := func() error {
@@ -196,6 +201,8 @@ func TestVerifC01ServerNames(t *testing.T) {
 				ret = "same"
 			case status.Code(err) == codes.Unavailable && status.Convert(err).Message() == breaker.ErrServiceUnavailable.Error():
 				ret = "unavail"
+			case err == ctx.Err():
+				ret = "ctx"
 			}
 			emit(verifEv{"e": "callEnd", "c": id, "ret": ret, "pan": pan})
 		}
